@@ -55,6 +55,10 @@ def check_frames(records, size, seq, frames, whole):
     joined = utils.join(frames)
     if not oracles.checksum_ok(joined):
         return "join-invalid", "joined message does not verify"
+    # the frames may be handed over as any iterable (split() and iter_encode() are generators)
+    for how, arg in (("iterator", iter(frames)), ("generator", (f for f in frames)), ("tuple", tuple(frames))):
+        if utils.join(arg) != joined:
+            return "join-iterable", "join() of the same frames given as a %s differs from join() of the list" % how
     if codec.decode(joined) != codec.decode(whole):
         return "join-decode", "joined message decodes to different records"
     return None
@@ -109,8 +113,10 @@ def run(ctx):
     for n in range(0, L + 1):
         text = "".join(r.choice("abcdefgh|^\\&XYZ09 \xe9\xff") for _ in range(n))
         rec = [[text if text else None]]
-        for size in range(5, S + 1):
+        for size in list(range(0, 5)) + list(range(5, S + 1)):
             for seq in range(0, Q + 1):
+                if size < 5 and seq not in (0, 1, 7):
+                    continue
                 cases.append((rec, size, seq))
     run_cases(s, cases, ctx)
     streams = [s]
